@@ -183,6 +183,19 @@ fn defects() -> Vec<Defect> {
             },
         },
         Defect {
+            name: "edge-props-lost-after-join",
+            applies: |q, _, _| {
+                q.chains.len() > 1
+                    && q.filter.is_some()
+                    && q.chains[0].steps.iter().any(|(e, _)| e.var.is_some())
+                    && q.chains[1].steps.iter().any(|(e, _)| e.hops.is_some_and(|h| h != (1, 1)))
+            },
+            set: |m| {
+                m.edge_props_lost = true;
+                m.edge_props_lost_where_too = true;
+            },
+        },
+        Defect {
             name: "with-alias-through-nodeid-column",
             applies: |q, _, _| q.with.is_some(),
             set: |m| m.with_alias_as_nodeid = true,
